@@ -78,7 +78,7 @@ class ParseCommand:
     def __call__(self, args: argparse.Namespace) -> None:
         if args.json:
             output_format = "json"
-        elif args.ms:
+        elif args.ms is not None:
             output_format = "ms"
         else:
             output_format = "yaml"
